@@ -57,10 +57,27 @@ def one_case(c: dict[str, Any]) -> dict[str, Any]:
         w.drain()
         sock = w.sock
         noise_reject = False
-        if noise:
-            w.io_chunk(sock, w.noise_handshake_bytes())
+        cancel_at = c.get("cancel")  # the caller gives up (its own timeout) this many loop turns after the deciding bytes arrived
+        cancelled = False
+
+        def deliver_deciding(data: bytes) -> None:
+            nonlocal cancelled
+            w.io_chunk(sock, data)
+            if cancel_at is not None and not cancelled:
+                for _ in range(cancel_at):
+                    w.step()
+                if w.pending("connect"):
+                    w.cancel("connect")
+                cancelled = True
             w.drain()
+
+        if noise:
             noise_reject = exp_name is not None and nname is not None and nname != exp_name
+            if noise_reject:
+                deliver_deciding(w.noise_handshake_bytes())
+            else:
+                w.io_chunk(sock, w.noise_handshake_bytes())
+                w.drain()
         conn_ok = not c["invalid"]
         chunks: list[bytes] = []
         # a device answers what it is asked: after a server hello that must be refused a correct client asks nothing more, but if it
@@ -106,6 +123,9 @@ def one_case(c: dict[str, Any]) -> dict[str, Any]:
         for ch in chunks:
             if sock.closed:
                 break
+            if cancel_at is not None:
+                deliver_deciding(ch)
+                continue
             w.io_chunk(sock, ch)
             w.drain()
         w.drain()
@@ -123,7 +143,45 @@ def one_case(c: dict[str, Any]) -> dict[str, Any]:
         viol = None
         key = ",".join(f"{k}={v}" for k, v in c.items())
         conn = w.client._connection
-        if lenient and out != "ok":
+        if cancel_at is not None:
+            # the caller's own cancellation races the device's answer: cancelled, a connection error, or (too late) the normal result
+            if out is None:
+                w.run_timers(w.loop.time() + 100)
+                out = w.outcome("connect")
+                res = w.results.get("connect")
+            exc = res[1] if res and res[0] == "exc" else None
+            sent_name = nname if noise_reject else hello_name
+            if out is None:
+                viol = "connect neither returned nor raised within 100 s of being cancelled"
+            elif out == "ok":
+                if not accept:
+                    viol = f"connect succeeded although the device must be rejected (cancel {cancel_at} turns after the answer)"
+                elif conn is None or conn.connection_state.name != "CONNECTED":
+                    viol = "connect returned but the connection is not in the connected state"
+            elif exc is not None and not isinstance(exc, APIConnectionError):
+                viol = f"connect raised {type(exc).__name__}, not a connection error"
+            elif isinstance(exc, BadNameAPIError):
+                if accept:
+                    viol = f"bad-name error for an acceptable device (cancel {cancel_at} turns after the answer)"
+                elif not isinstance(sent_name, bytes) and exc.received_name != sent_name:
+                    viol = f"bad-name error carries {exc.received_name!r}, the device said {sent_name!r} (cancel {cancel_at} turns after the answer)"
+            elif isinstance(exc, InvalidAuthAPIError) and accept:
+                viol = f"invalid-auth error for an acceptable device (cancel {cancel_at} turns after the answer)"
+            if viol is None and out != "ok":
+                w.drain()
+                w.run_timers(w.loop.time() + 200)
+                if stops:
+                    viol = f"stop callback invoked ({stops}) although the session was never established"
+                elif any(not s.closed for s in w.net.sockets):
+                    viol = "socket left open after the cancelled attempt"
+                elif w.loop.live_timers():
+                    viol = "timer left armed after the cancelled attempt"
+                else:
+                    w.spawn("again", lambda: w.client.start_connection())
+                    w.drain()
+                    if w.outcome("again") is not None and w.outcome("again") != "ok":
+                        viol = f"client not reusable after the cancelled attempt: start_connection -> {w.outcome('again')}"
+        elif lenient and out != "ok":
             exc = res[1] if res else None
             if out is None or not isinstance(exc, APIConnectionError):
                 viol = f"deviating device: connect ended {out}, expected success or a connection error"
@@ -235,6 +293,18 @@ def cases(tier: str) -> list[dict[str, Any]]:
             continue  # nothing is specified for a device whose announced name is not text when no name is expected
         out.append({"noise": True, "noise_name": nn, "major": major, "minor": 10, "name": name, "expected": expected, "login": login,
                     "password": False, "invalid": invalid, "order": order})
+    # the caller cancels connect() 0..3 loop turns after the deciding bytes arrived (same-turn races between the answer and a timeout)
+    for noise_flag in (False, True):
+        for nn, major, name, expected, login, invalid, k in itertools.product(
+            NOISE_NAMES if noise_flag else ("equal",), (1, 3), HELLO_NAMES, (False, True), (False, True), (False, True), (0, 1, 2, 3)
+        ):
+            if (not login and invalid) or (nn == "not-utf8" and not expected):
+                continue
+            cfg = {"noise": noise_flag, "major": major, "minor": 10, "name": name, "expected": expected, "login": login,
+                   "password": False, "invalid": invalid, "order": "one-chunk", "cancel": k}
+            if noise_flag:
+                cfg["noise_name"] = nn
+            out.append(cfg)
     return out
 
 
